@@ -4,6 +4,8 @@ Space  : scope trees (vf/spaces/scopes.py): kinds {module, def, class, lambda, l
          generator expression}, <= 2 children per scope, every assignment of one role per scope from
          the role catalogue. quick: all trees with <= 3 scopes (3-scope trees under 4 of the 8 configurations: one unparser per
          (wrapper, if-style) pair, default included); thorough: <= 4 scopes x 8 configurations.
+         Plus every CHAIN (one child per scope) of 4 (quick) / 4 and 5 (thorough) scopes over a reduced role
+         catalogue (global/nonlocal/param/assign/read forms), which reaches three nested functions.
 Oracle : CPython must compile and run the program without exception (else skipped, counted); then
          equal log (values observed before/after inner scopes run) and equal final globals.
 """
@@ -17,6 +19,15 @@ LEVEL = "exploration"
 
 
 def run_shard(shard):
+    if shard[0] == "chain":
+        _, n, r, k, cfgs = shard
+        res = core.ShardResult()
+        for idx, t in enumerate(scopes.deep_chains(n)):
+            if idx % k != r:
+                continue
+            res.c["candidates"] += 1
+            progcheck.check_program(res, "c06:" + scopes.key(t), scopes.render(t), cfgs, env=scopes.env)
+        return res
     n, si, r, k, cfgs = shard
     res = core.ShardResult()
     shapes = list(scopes.trees(n))
@@ -43,6 +54,11 @@ def shards(tier):
         for si in range(nshapes):
             for r in range(k):
                 out.append((n, si, r, k, core.ALL_CFG if (tier == "thorough" or n < 3) else [4, 1, 2, 7]))
+    # chains of 4 (quick) / 4 and 5 (thorough) scopes over the reduced role catalogue: deep nestings the full product cannot reach
+    for n in ((4,) if tier == "quick" else (4, 5)):
+        k = 64 if n == 4 else 512
+        for r in range(k):
+            out.append(("chain", n, r, k, [4, 1, 2, 7] if tier == "quick" else core.ALL_CFG))
     return out
 
 
@@ -50,8 +66,11 @@ def main(tier, seed, collect=None):
     t0 = time.time()
     sh = shards(tier)
     total = core.run_shards(run_shard, sh, seed=seed, pid=PID)
+    other_hosts = core.run_on_hosts(PID, ["py310", "py311", "py313"], "quick", seed, total) if tier == "thorough" else []
+
     c = total.c
     cov = {
+        "converter_hosts": [core.HOST] + other_hosts,
         "evaluations": c["executions"],
         "distinct_nontrivial": c["programs_in_scope"],
         "rule": "every (scope tree shape, role assignment) is one candidate program (distinct key); non-trivial = CPython compiles it and "
